@@ -298,3 +298,29 @@ def completable_f(r, cnt):
     if k == 'alt':
         return z3.Or([z3.And([completable_f(x, cnt)] + [empty_f(y, cnt) for y in r[1] if y is not x]) for x in r[1]] + [z3.BoolVal(False)])
     raise ValueError(k)
+
+
+def viable_after_add_f(r, cnt, a):
+    """the block word cnt (which already includes the new child a, and is empty after a's leaf) is a prefix of a word of L(r) that can be
+    completed by appending only AFTER a: everything before a is final, a's own particle is within bounds.  r dup-free, fixed-shape, a in r"""
+    k = r[0]
+    if k == 'sym':
+        return cnt[r[1]] == 1
+    if k == 'rep':
+        _, x, mi, ma = r
+        if x[0] == 'sym':
+            return z3.BoolVal(True) if ma is None else cnt[x[1]] <= ma
+        return viable_after_add_f(x, cnt, a)
+    if k == 'seq':
+        out = []
+        for x in r[1]:
+            if a in names_of(x):
+                out.append(viable_after_add_f(x, cnt, a))
+                break
+            out.append(valid_f(x, cnt))
+        return z3.And(out)
+    if k == 'alt':
+        for x in r[1]:
+            if a in names_of(x):
+                return z3.And([viable_after_add_f(x, cnt, a)] + [empty_f(y, cnt) for y in r[1] if y is not x])
+    raise ValueError(k)
